@@ -586,8 +586,14 @@ func AddNoise(r *rng.R, base []client.Object) ([]client.Object, []string) {
 				kinds = kinds[:len(kinds)-1]
 				continue
 			}
-			out = append(out, p.Namespace("x-ns", map[string]string{"kubernetes.io/metadata.name": "x-ns"}),
-				p.HTTPRoute("x-ns", name, a+i, []gatewayv1.ParentReference{p.ParentRef(gw.Namespace, gw.Name, "")}, nil, rule))
+			// sometimes the Namespace object itself is unknown (its event arrives later / it was deleted): a Selector
+			// listener must then not admit the route (commit d734bd5: `return false` instead of a panic)
+			if r.Bool() {
+				out = append(out, p.Namespace("x-ns", map[string]string{"kubernetes.io/metadata.name": "x-ns"}))
+			} else {
+				kinds[len(kinds)-1] = "route-from-unknown-namespace-not-allowed"
+			}
+			out = append(out, p.HTTPRoute("x-ns", name, a+i, []gatewayv1.ParentReference{p.ParentRef(gw.Namespace, gw.Name, "")}, nil, rule))
 		default:
 			if gw == nil {
 				continue
